@@ -267,6 +267,23 @@ impl Scenario for C18 {
                     if wired.hash != full.hash {
                         r.violate("C18|wire|hash-changed", format!("hash of the lite block after the wire differs from the full block's (n {}, pattern {:?})", plan.n, plan.pattern));
                     }
+                    // what the light client holds after it regenerated the received block: every touching
+                    // transaction with the very outputs (position in the block = ledger key included) the full
+                    // block gives it
+                    for t in full.transactions.iter().filter(|t| touches(t, &keylist)) {
+                        let same = wired.transactions.iter().any(|l| {
+                            l.signature == t.signature
+                                && l.to.len() == t.to.len()
+                                && l.to.iter().zip(t.to.iter()).all(|(a, b)| a.public_key == b.public_key && a.amount == b.amount && a.slip_type == b.slip_type && a.slip_index == b.slip_index && a.tx_ordinal == b.tx_ordinal && a.block_id == b.block_id && a.utxoset_key == b.utxoset_key)
+                        });
+                        if !same {
+                            r.violate(
+                                "C18|wire|touching-tx-outputs-differ",
+                                format!("after the wire a transaction touching the key list is missing or its outputs carry other ledger coordinates than in the full block (n {}, pattern {:?})", plan.n, plan.pattern),
+                            );
+                            break;
+                        }
+                    }
                     let root_after = MerkleTree::generate(&wired.transactions).map(|t| t.get_root_hash());
                     if !full.transactions.is_empty() && root_after != Some(full.merkle_root) {
                         r.violate(
